@@ -26,14 +26,14 @@ Definition rlit := list (list (string * result string)).
 
 Record steplit := mkS {
   s_err : option err;
-  s_dump : string;
+  s_dump : list string;                                   (* dump(), as its physical lines *)
   s_paras : rlit;                                         (* live object: keys and values *)
-  s_reparse : option (list (list (string * string)));     (* fresh parse of the dump *)
-  s_lookups : rlit                                        (* per re-parsed paragraph: key in other spellings *)
+  s_reparse : option rlit;                                (* fresh parse of the dump: keys and values *)
+  s_lookups : list (list (result string))                 (* per re-parsed paragraph: the key read in other spellings *)
 }.
 
 Inductive case :=
-| Run (text : string) (items : list ilit) (init : rlit) (ops : list oplit) (steps : list steplit)
+| Run (text : list string) (items : list ilit) (init : rlit) (ops : list oplit) (steps : list steplit)
 | LeafField (line : string) (r : option (string * string))    (* _RE_FIELD_LINE: name, text from the colon on *)
 | LeafWs (line : string) (r : bool)                           (* _RE_WHITESPACE_LINE *)
 | LeafComment (c : string) (r : result string).               (* _format_comment *)
@@ -59,6 +59,9 @@ Definition dec_op (o : oplit) : op :=
   | LSimple j k v p fc => OSimple j (dec_key k) (dec v) p (option_map (map dec) fc)
   | LRaw j k v p fc => ORaw j (dec_key k) (dec v) p (option_map (map dec) fc)
   end.
+
+(** a text written as the list of its physical lines *)
+Definition dec_text (ls : list string) : str := concat (map dec ls).
 
 Definition dec_res (r : result string) : result str :=
   match r with Ok s => Ok (dec s) | Err e => Err e end.
@@ -90,7 +93,7 @@ Fixpoint agree_steps (d : doc) (ops : list op) (steps : list steplit) : bool :=
   | o :: ops', st :: steps' =>
       let (e, d') := step d o in
       option_eqb err_eqb e (s_err st)
-      && str_eqb (dump d') (dec (s_dump st))
+      && str_eqb (dump d') (dec_text (s_dump st))
       && read_eqb' (model_read d') (dec_read (s_paras st))
       && agree_steps d' ops' steps'
   | _, _ => false
@@ -104,7 +107,7 @@ Definition agree (c : case) : bool :=
   | Run text items init ops steps =>
       let d := map dec_item items in
       forallb class_ok items
-      && str_eqb (dump d) (dec text)
+      && str_eqb (dump d) (dec_text text)
       && read_eqb' (model_read d) (dec_read init)
       && agree_steps d (map dec_op ops) steps
   | LeafField line r =>
@@ -153,11 +156,30 @@ Fixpoint spec_init (items : list ilit) (init : rlit) : option sdoc :=
       end
   end.
 
+(** every value of the fresh parse was read without an exception *)
+Fixpoint dec_pairs (l : list (string * result string)) : option (list (str * str)) :=
+  match l with
+  | [] => Some []
+  | (n, Ok v) :: l' =>
+      match dec_pairs l' with Some r => Some ((dec n, dec v) :: r) | None => None end
+  | (_, Err _) :: _ => None
+  end.
+
+Fixpoint dec_reparse (r : rlit) : option (list (list (str * str))) :=
+  match r with
+  | [] => Some []
+  | p :: r' =>
+      match dec_pairs p, dec_reparse r' with
+      | Some a, Some b => Some (a :: b)
+      | _, _ => None
+      end
+  end.
+
 Definition dec_obs (st : steplit) : sobs :=
   mkO (match s_err st with Some _ => true | None => false end)
-      (dec (s_dump st))
-      (option_map (map (map (fun kv => (dec (fst kv), dec (snd kv))))) (s_reparse st))
-      (dec_read (s_lookups st)).
+      (dec_text (s_dump st))
+      (match s_reparse st with Some r => dec_reparse r | None => None end)
+      (map (map dec_res) (s_lookups st)).
 
 Definition is_ascii_str (s : str) : bool := forallb (fun c => (c <? 128)%N) s.
 
@@ -176,12 +198,14 @@ Definition judge (s : sdoc) (o : op) (ob : sobs) : option (option sdoc) :=
                    && match fc with Some l => forallb valid_comment l | None => true end
       | None => false
       end in
+  let fc_usable (fc : option (list str)) :=
+      match fc with Some l => forallb comment_usable l | None => true end in
   let lift (r : option sdoc) := match r with Some s' => Some (Some s') | None => None end in
   match o with
   | OSet j k v =>
       if negb (in_domain j k None) then Some None else
       let (n, idx) := key_parts k in
-      lift (check_set s j n idx v (valid_value v) CKeep ob)
+      lift (check_set s j n idx v (valid_value v) true CKeep ob)
   | ODel j k =>
       if negb (in_domain j k None) then Some None else
       let (n, idx) := key_parts k in
@@ -193,7 +217,7 @@ Definition judge (s : sdoc) (o : op) (ob : sobs) : option (option sdoc) :=
       | Some _, Some _ => lift (unchanged s ob)                   (* contradictory arguments *)
       | _, _ =>
           let cm := match pres, fc with Some false, _ | _, Some _ => CReplace | _, _ => CKeep end in
-          lift (check_set s j n idx v (valid_value v && negb (mem_char LF v)) cm ob)
+          lift (check_set s j n idx v (valid_value v && negb (mem_char LF v)) (fc_usable fc) cm ob)
       end
   | ORaw j k v pres fc =>
       if negb (in_domain j k fc) then Some None else
@@ -202,7 +226,7 @@ Definition judge (s : sdoc) (o : op) (ob : sobs) : option (option sdoc) :=
       | Some _, Some _ => lift (unchanged s ob)
       | _, _ =>
           let cm := match pres, fc with Some false, _ | _, Some _ => CReplace | _, _ => CKeep end in
-          lift (check_set s j n idx v (valid_raw v) cm ob)
+          lift (check_set s j n idx v (valid_raw v) (fc_usable fc) cm ob)
       end
   end.
 
@@ -223,7 +247,7 @@ Definition holds (c : case) : bool :=
   | Run text items init ops steps =>
       match spec_init items init with
       | None => false
-      | Some s => str_eqb (sdump s) (dec text) && holds_steps s (map dec_op ops) steps
+      | Some s => str_eqb (sdump s) (dec_text text) && holds_steps s (map dec_op ops) steps
       end
   | _ => true
   end.
